@@ -1,3 +1,365 @@
+import Bch.Proofs.GcsSpec
+import Bch.Proofs.GcsBuilder
+/-
+C14 — GCS filters are bit-exact Golomb-Rice encodings and serialise losslessly.
+Models: `Bch/Model/Gcs.lean`, `Bch/Model/GcsBuilder.lean`; SipHash-2-4 is the parameter `sip`,
+SHA-256 the parameter `sha256`. Lemmas: `Bch/Proofs/Gcs*.lean`.
+-/
 namespace Bch.Props.C14
-theorem placeholder : True := trivial
+open Bch Bch.Model Bch.Model.Gcs
+
+/-! ## the specification side, written from BIP158 on natural numbers -/
+namespace Spec
+
+/-- the `P` low bits of `δ`, most significant first -/
+def lowBitsMSB (P δ : Nat) : List Bool := (List.range P).map fun i => δ.testBit (P - 1 - i)
+
+/-- one delta: `⌊δ/2^P⌋` one-bits, a zero bit, then the `P` low bits of `δ` -/
+def rice (P δ : Nat) : List Bool := List.replicate (δ / 2^P) true ++ [false] ++ lowBitsMSB P δ
+
+/-- differences between successive elements (the first against 0) -/
+def deltas (vs : List Nat) : List Nat := List.zipWith (· - ·) vs (0 :: vs)
+
+/-- Golomb-Rice coding of an ascending list -/
+def golombRice (P : Nat) (vs : List Nat) : List Bool := (deltas vs).flatMap (rice P)
+
+/-- ascending sort -/
+def sort (l : List Nat) : List Nat := l.mergeSort (fun a b => decide (a ≤ b))
+
+/-- the set element `d` mapped to `[0, N·M)`: `⌊SipHash(d) · (N·M mod 2^64) / 2^64⌋` -/
+def hashed (sip : Bytes → UInt64) (N M : Nat) (d : Bytes) : Nat :=
+  (sip d).toNat * ((N * M) % 2^64) / 2^64
+
+end Spec
+
+/-- `Spec.sort` returns the ascending rearrangement of its input -/
+theorem spec_sort_sorted_perm (l : List Nat) :
+    (Spec.sort l).Pairwise (· ≤ ·) ∧ (Spec.sort l).Perm l := by
+  refine ⟨?_, List.mergeSort_perm l _⟩
+  have h := List.pairwise_mergeSort (le := fun a b : Nat => decide (a ≤ b))
+    (by intro a b c; simp only [decide_eq_true_eq]; exact Nat.le_trans)
+    (by intro a b; simp only [Bool.or_eq_true, decide_eq_true_eq]; exact Nat.le_total a b) l
+  exact h.imp (by intro a b; simp)
+
+theorem spec_rice_eq (P δ : Nat) : Spec.rice P δ = Proofs.Gcs.riceNat P δ := by
+  simp [Spec.rice, Spec.lowBitsMSB, Proofs.Gcs.riceNat, Proofs.Gcs.bitsOf_eq_range]
+
+theorem spec_deltas_eq (vs : List Nat) : Spec.deltas vs = Proofs.Gcs.deltasNat 0 vs := by
+  have h : ∀ (vs : List Nat) (last : Nat),
+      List.zipWith (· - ·) vs (last :: vs) = Proofs.Gcs.deltasNat last vs := by
+    intro vs
+    induction vs with
+    | nil => intro _; rfl
+    | cons v vs ih => intro last; simp only [List.zipWith_cons_cons, Proofs.Gcs.deltasNat, ih v]
+  exact h vs 0
+
+/-- the model's `UInt64` encoder (`v - last` in `uint64`, mask/shift quotient and remainder,
+`WriteBits`) coincides with the specification on every ascending list, for every `P ≤ 32` -/
+theorem encodeSorted_eq_spec (P : Nat) (hP : P ≤ 32) (vs : List UInt64)
+    (hs : vs.Pairwise (· ≤ ·)) :
+    encodeSorted P 0 vs = Spec.golombRice P (vs.map UInt64.toNat) := by
+  rw [Proofs.Gcs.encodeSorted_eq_nat P hP vs 0 (Proofs.Gcs.sorted_zero_cons hs)]
+  unfold Spec.golombRice
+  rw [spec_deltas_eq]
+  have : Spec.rice P = Proofs.Gcs.riceNat P := funext (spec_rice_eq P)
+  rw [this]; rfl
+
+/-! ## headline: bit-exactness -/
+
+/-- **C14_bit_exact**: whenever the build does not fail (`N < 2^32`, `P ≤ 32`; the complementary
+cases are `C14_build_errors`), the filter is N, P, `N·M mod 2^64` and the zero-padded
+Golomb-Rice code of the sorted hashed set. -/
+theorem C14_bit_exact (sip : Bytes → UInt64) (P : Nat) (M : UInt64) (data : List Bytes)
+    (hN : data.length < 2^32) (hP : P ≤ 32) :
+    BuildGCSFilter sip P M data = .ok ⟨data.length, P, UInt64.ofNat data.length * M,
+      packBits (Spec.golombRice P
+        (Spec.sort (data.map (Spec.hashed sip data.length M.toNat))))⟩ := by
+  rw [Proofs.Gcs.build_nat sip P M data hN hP]
+  unfold Spec.golombRice
+  rw [spec_deltas_eq]
+  have : Spec.rice P = Proofs.Gcs.riceNat P := funext (spec_rice_eq P)
+  rw [this]; rfl
+
+/-- the modulus field as a number -/
+theorem C14_modulus (n : Nat) (hn : n < 2^32) (M : UInt64) :
+    (UInt64.ofNat n * M).toNat = (n * M.toNat) % 2^64 := Proofs.Gcs.modNP_toNat n hn M
+
+/-- the error branches of `BuildGCSFilter` -/
+theorem C14_build_errors (sip : Bytes → UInt64) (P : Nat) (M : UInt64) (data : List Bytes) :
+    (BuildGCSFilter sip P M data = .error .nTooBig ↔ data.length ≥ 2^32) ∧
+    (BuildGCSFilter sip P M data = .error .pTooBig ↔ data.length < 2^32 ∧ P > 32) :=
+  Proofs.Gcs.build_error_iff sip P M data
+
+/-- "zero padded to a byte": `packBits` is inverted by reading each byte MSB first, up to fewer
+than 8 trailing zero bits, and produces `⌈len/8⌉` bytes -/
+theorem C14_padding (bs : List Bool) :
+    (packBits bs).length = (bs.length + 7) / 8 ∧
+    ∃ k, k < 8 ∧ (bs.length + k) % 8 = 0 ∧
+      unpackBits (packBits bs) = bs ++ List.replicate k false :=
+  ⟨Proofs.Gcs.packBits_length bs, Proofs.Gcs.unpack_pack bs⟩
+
+/-- **C14_perm_invariant**: the result depends only on the multiset of the data (the builder
+iterates a Go map in random order), including the error cases -/
+theorem C14_perm_invariant (sip : Bytes → UInt64) (P : Nat) (M : UInt64) (d₁ d₂ : List Bytes)
+    (h : d₁.Perm d₂) : BuildGCSFilter sip P M d₁ = BuildGCSFilter sip P M d₂ :=
+  Proofs.Gcs.build_perm sip P M h
+
+example : ([[1], [2, 3], [1]] : List Bytes).Perm [[2, 3], [1], [1]] := by decide
+
+/-! ## serialisation -/
+
+/-- the three prefixed serialisations are the stated concatenations -/
+theorem C14_serialise_defs (f : Filter) :
+    NBytes f = writeVarInt f.n ++ f.data ∧
+    PBytes f = UInt8.ofNat f.p :: f.data ∧
+    NPBytes f = writeVarInt f.n ++ UInt8.ofNat f.p :: f.data := ⟨rfl, rfl, rfl⟩
+
+/-- CompactSize layout -/
+theorem compactSize_format (v : Nat) :
+    (v < 0xfd → writeVarInt v = [UInt8.ofNat v]) ∧
+    (0xfd ≤ v → v ≤ 0xffff → writeVarInt v = 0xfd :: Bytes.ofNatLE 2 v) ∧
+    (0xffff < v → v ≤ 0xffffffff → writeVarInt v = 0xfe :: Bytes.ofNatLE 4 v) ∧
+    (0xffffffff < v → writeVarInt v = 0xff :: Bytes.ofNatLE 8 v) := by
+  unfold writeVarInt
+  refine ⟨fun h => by rw [if_pos h], fun h1 h2 => ?_, fun h1 h2 => ?_, fun h => ?_⟩
+  · rw [if_neg (by omega), if_pos h2]
+  · rw [if_neg (by omega), if_neg (by omega), if_pos h2]
+  · rw [if_neg (by omega), if_neg (by omega), if_neg (by omega)]
+
+/-- little-endian fixed-width bytes carry the value -/
+theorem ofNatLE_value (k v : Nat) :
+    (Bytes.ofNatLE k v).length = k ∧ Bytes.toNatLE (Bytes.ofNatLE k v) = v % 256^k :=
+  ⟨Proofs.Gcs.ofNatLE_length k v, Proofs.Gcs.toNatLE_ofNatLE k v⟩
+
+/-- **varint_roundtrip**: every 64-bit count is read back, leaving the rest of the input -/
+theorem varint_roundtrip (n : Nat) (hn : n < 2^64) (rest : Bytes) :
+    readVarInt (writeVarInt n ++ rest) = some (n, rest) :=
+  Proofs.Gcs.varint_roundtrip n hn rest
+
+example : readVarInt (writeVarInt 70000 ++ [9]) = some (70000, [9]) := by decide
+
+/-- the reader accepts *only* canonical encodings: whatever it accepts is `writeVarInt` of the
+value it returns, followed by the returned rest -/
+theorem readVarInt_canonical (bs : Bytes) (n : Nat) (rest : Bytes)
+    (h : readVarInt bs = some (n, rest)) : n < 2^64 ∧ bs = writeVarInt n ++ rest :=
+  Proofs.Gcs.readVarInt_canonical bs n rest h
+
+example : readVarInt [0xfd, 0x00, 0x01, 7] = some (256, [7]) := by decide
+
+/-- non-canonical (value too small for its prefix) and truncated encodings are rejected -/
+theorem readVarInt_rejects :
+    (∀ v rest, v < 0xfd → readVarInt (0xfd :: (Bytes.ofNatLE 2 v ++ rest)) = none) ∧
+    (∀ v rest, v < 0x10000 → readVarInt (0xfe :: (Bytes.ofNatLE 4 v ++ rest)) = none) ∧
+    (∀ v rest, v < 0x100000000 → readVarInt (0xff :: (Bytes.ofNatLE 8 v ++ rest)) = none) ∧
+    (∀ l : Bytes, l.length < 2 → readVarInt (0xfd :: l) = none) ∧
+    (∀ l : Bytes, l.length < 4 → readVarInt (0xfe :: l) = none) ∧
+    (∀ l : Bytes, l.length < 8 → readVarInt (0xff :: l) = none) ∧
+    readVarInt [] = none :=
+  Proofs.Gcs.readVarInt_rejects
+
+example : readVarInt [0xfd, 0x10, 0x00] = none := by decide
+
+/-- `FromBytes` and `FromNBytes` on an arbitrary filter value: same N, P (the caller's), bytes and
+`modulusNP = N*M`; plus every error branch of the two functions -/
+theorem C14_deserialise (f : Filter) (P : Nat) (M : UInt64) :
+    (P ≤ 32 → FromBytes f.n P M f.data = .ok ⟨f.n, P, UInt64.ofNat f.n * M, f.data⟩) ∧
+    (P > 32 → FromBytes f.n P M f.data = .error .pTooBig) ∧
+    (f.n < 2^32 → P ≤ 32 →
+      FromNBytes P M (NBytes f) = .ok ⟨f.n, P, UInt64.ofNat f.n * M, f.data⟩) ∧
+    (f.n < 2^32 → P > 32 → FromNBytes P M (NBytes f) = .error .pTooBig) ∧
+    (2^32 ≤ f.n → f.n < 2^64 → FromNBytes P M (NBytes f) = .error .nTooBig) ∧
+    (∀ bs, readVarInt bs = none → FromNBytes P M bs = .error .varint) := by
+  refine ⟨Proofs.Gcs.FromBytes_ok _ _ _ _, Proofs.Gcs.FromBytes_err _ _ _ _,
+    Proofs.Gcs.FromNBytes_NBytes f P M, fun hn hP => ?_, fun hn hn' => ?_, fun bs h => ?_⟩
+  · unfold FromNBytes NBytes
+    rw [Proofs.Gcs.varint_roundtrip f.n (by omega)]
+    simp only
+    rw [if_neg (by omega), Proofs.Gcs.FromBytes_err _ _ _ _ hP]
+  · unfold FromNBytes NBytes
+    rw [Proofs.Gcs.varint_roundtrip f.n hn']
+    simp only
+    rw [if_pos hn]
+  · unfold FromNBytes; rw [h]
+
+/-- **C14_serialise**: a built filter is recovered *exactly* (N, P, modulus, bytes) from its
+N-prefixed serialisation, from its raw bytes + N, and from its NP-prefixed serialisation (read the
+CompactSize, then the P byte), with the same `P`, `M`. -/
+theorem C14_serialise (sip : Bytes → UInt64) (P : Nat) (M : UInt64) (data : List Bytes)
+    (f : Filter) (hb : BuildGCSFilter sip P M data = .ok f) :
+    FromNBytes P M (NBytes f) = .ok f ∧
+    FromBytes f.n P M f.data = .ok f ∧
+    (∃ pb, PBytes f = pb :: f.data ∧ pb.toNat = f.p ∧
+      readVarInt (NPBytes f) = some (f.n, pb :: f.data) ∧
+      FromBytes f.n pb.toNat M f.data = .ok f) := by
+  have h := Proofs.Gcs.FromNBytes_built hb
+  obtain ⟨_, h1, h2, h3, _⟩ := Proofs.Gcs.built_fields hb
+  refine ⟨h.1, h.2, UInt8.ofNat f.p, rfl, ?_, ?_, ?_⟩
+  · rw [UInt8.toNat_ofNat']; omega
+  · exact Proofs.Gcs.varint_roundtrip f.n (by omega) _
+  · have : (UInt8.ofNat f.p).toNat = P := by rw [UInt8.toNat_ofNat']; omega
+    rw [this]; exact h.2
+
+/-- hence every query answers identically on the rebuilt filter -/
+theorem C14_roundtrip_queries (sip : Bytes → UInt64) (P : Nat) (M : UInt64) (data : List Bytes)
+    (f f' : Filter) (hb : BuildGCSFilter sip P M data = .ok f)
+    (hr : FromNBytes P M (NBytes f) = .ok f' ∨ FromBytes f.n P M f.data = .ok f') :
+    f' = f ∧ ∀ (d : Bytes) (q : List Bytes),
+      Match sip f' d = Match sip f d ∧ MatchAny sip f' q = MatchAny sip f q ∧
+      ZipMatchAny sip f' q = ZipMatchAny sip f q ∧ HashMatchAny sip f' q = HashMatchAny sip f q := by
+  have h := Proofs.Gcs.FromNBytes_built hb
+  have e : f' = f := by
+    rcases hr with hr | hr
+    · rw [h.1] at hr; injection hr with hr; exact hr.symm
+    · rw [h.2] at hr; injection hr with hr; exact hr.symm
+  subst e
+  exact ⟨rfl, fun _ _ => ⟨rfl, rfl, rfl, rfl⟩⟩
+
+/-! ## the builder -/
+open Bch.Model.GcsBuilder
+
+/-- **C14_builder_latch**: after an error every setter/adder is the identity, so is any chain of
+them, and `Build` returns that error -/
+theorem C14_builder_latch (sip : Bytes → Bytes → UInt64) (b : Builder) (e : Err)
+    (h : b.err = some e) :
+    (∀ op, step b op = b) ∧ (∀ ops : List Op, ops.foldl step b = b) ∧ Build sip b = .error e :=
+  ⟨fun op => Proofs.GcsBuilder.step_latched b op (by rw [h]; rfl),
+   fun ops => Proofs.GcsBuilder.foldl_step_latched b ops (by rw [h]; rfl),
+   Proofs.GcsBuilder.Build_latched sip b e h⟩
+
+example : ({ err := some Err.pTooBig } : Builder).err = some Err.pTooBig := rfl
+
+/-- how the latch gets set, and what `Build` does on an un-latched builder -/
+theorem C14_builder_errors (sip : Bytes → Bytes → UInt64) (b : Builder) (h : b.err = none) :
+    (∀ p, p > 32 → (step b (.setP p)).err = some .pTooBig) ∧
+    (∀ p, p ≤ 32 → step b (.setP p) = { b with p := p }) ∧
+    (∀ m, m > 0xffffffff → (step b (.setM m)).err = some .pTooBig) ∧
+    (∀ m, m ≤ 0xffffffff → step b (.setM m) = { b with m := m }) ∧
+    (∀ k, step b (.setKey k) = { b with key := (k ++ List.replicate 16 0).take 16 }) ∧
+    (b.p = 0 → Build sip b = .error .pUnset) ∧
+    (b.p ≠ 0 → b.m = 0 → Build sip b = .error .mUnset) ∧
+    (b.p ≠ 0 → b.m ≠ 0 → Build sip b =
+      (BuildGCSFilter (sip b.key) b.p (UInt64.ofNat b.m) b.data).mapError Err.gcs) := by
+  refine ⟨fun p hp => ?_, fun p hp => ?_, fun m hm => ?_, fun m hm => ?_, fun k => ?_,
+    fun hp => ?_, fun hp hm => ?_, fun hp hm => ?_⟩
+  · unfold step; rw [h]; simp only [Option.isSome_none, Bool.false_eq_true, if_false, if_pos hp]
+  · unfold step; rw [h]
+    simp only [Option.isSome_none, Bool.false_eq_true, if_false, if_neg (Nat.not_lt.mpr hp)]
+  · unfold step; rw [h]; simp only [Option.isSome_none, Bool.false_eq_true, if_false, if_pos hm]
+  · unfold step; rw [h]
+    simp only [Option.isSome_none, Bool.false_eq_true, if_false, if_neg (Nat.not_lt.mpr hm)]
+  · unfold step; rw [h]; simp only [Option.isSome_none, Bool.false_eq_true, if_false]
+  · unfold Build; rw [h]; simp only [if_pos hp]
+  · unfold Build; rw [h]; simp only [if_neg hp, if_pos hm]
+  · unfold Build; rw [h]; simp only [if_neg hp, if_neg hm]
+    cases BuildGCSFilter (sip b.key) b.p (UInt64.ofNat b.m) b.data <;> rfl
+
+/-- **C14_basic_filter**: the basic block filter is `Build` of a builder with P = 19,
+M = 784931, key = first 16 bytes of the block hash (zero-extended if shorter), whose entry list
+has no duplicates and contains exactly: `hash ++ le32 index` (36 bytes for a 32-byte hash) of the
+outpoints spent by inputs of the transactions at index ≥ 1, and the non-empty output scripts of
+all transactions. -/
+theorem C14_basic_filter (sip : Bytes → Bytes → UInt64) (block : List Tx) (keyHash : Bytes) :
+    ∃ b : Builder, buildBasicFilterWithKey sip block keyHash = Build sip b ∧
+      b.p = 19 ∧ b.m = 784931 ∧ b.err = none ∧
+      b.key = (keyHash.take 16 ++ List.replicate 16 0).take 16 ∧
+      (16 ≤ keyHash.length → b.key = keyHash.take 16) ∧
+      b.data.Nodup ∧
+      ∀ e : Bytes, e ∈ b.data ↔
+        ∃ (i : Nat) (tx : Tx), block[i]? = some tx ∧
+          ((i ≥ 1 ∧ ∃ h ix, (h, ix) ∈ tx.ins ∧ e = h ++ Bytes.ofNatLE 4 ix) ∨
+           (e ∈ tx.outs ∧ e ≠ [])) := by
+  have h0 := Proofs.GcsBuilder.withKeyPM_eq (keyHash.take 16)
+  obtain ⟨h1, h2, h3, h4, h5, h6⟩ := Proofs.GcsBuilder.addEntries (basicEntries block)
+    (withKeyPM (keyHash.take 16) 19 784931) (by rw [h0])
+  refine ⟨_, rfl, ?_, ?_, h1, ?_, ?_, ?_, ?_⟩
+  · rw [h2, h0]
+  · rw [h3, h0]
+  · rw [h4, h0]
+  · intro hl
+    rw [h4, h0]
+    show ((keyHash.take 16 ++ List.replicate 16 0).take 16) = keyHash.take 16
+    exact List.take_left' (by rw [List.length_take]; omega)
+  · apply h5; rw [h0]; exact List.nodup_nil
+  · intro e
+    rw [h6 e, h0, ← Proofs.GcsBuilder.mem_basicEntries]
+    simp
+
+/-- the outpoint entry of a 32-byte hash has 36 bytes -/
+theorem outpoint_length (h : Bytes) (ix : Nat) :
+    (h ++ Bytes.ofNatLE 4 ix).length = h.length + 4 := by
+  rw [List.length_append, Proofs.Gcs.ofNatLE_length]
+
+/-- … and since the result depends only on the *set* of entries (`C14_perm_invariant`), the basic
+filter is the GCS filter of any duplicate-free enumeration of that set -/
+theorem C14_basic_filter_set (sip : Bytes → Bytes → UInt64) (block : List Tx) (keyHash : Bytes)
+    (entries : List Bytes) (hnd : entries.Nodup)
+    (hmem : ∀ e, e ∈ entries ↔
+        ∃ (i : Nat) (tx : Tx), block[i]? = some tx ∧
+          ((i ≥ 1 ∧ ∃ h ix, (h, ix) ∈ tx.ins ∧ e = h ++ Bytes.ofNatLE 4 ix) ∨
+           (e ∈ tx.outs ∧ e ≠ []))) :
+    buildBasicFilterWithKey sip block keyHash =
+      (BuildGCSFilter (sip ((keyHash.take 16 ++ List.replicate 16 0).take 16)) 19 784931
+          entries).mapError Err.gcs := by
+  obtain ⟨b, hb, hp, hm, he, hk, _, hnd', hmem'⟩ := C14_basic_filter sip block keyHash
+  have hperm : b.data.Perm entries :=
+    (List.perm_ext_iff_of_nodup hnd' hnd).mpr (fun e => by rw [hmem' e, hmem e])
+  rw [hb, (C14_builder_errors sip b he).2.2.2.2.2.2.2 (by omega) (by omega), hp, hm, hk,
+    C14_perm_invariant _ _ _ _ _ hperm]
+  rfl
+
+/-- the mempool filter is the basic filter with a dummy coinbase and the zero key -/
+theorem C14_mempool_filter (sip : Bytes → Bytes → UInt64) (txs : List Tx) :
+    BuildMempoolFilter sip txs
+      = buildBasicFilterWithKey sip (⟨[], []⟩ :: txs) (List.replicate 32 0) := rfl
+
+/-- **C14_header**: filter hash = double-SHA256 of the N-prefixed bytes; header = double-SHA256
+of `hash ++ previous header` (previous header taken as 32 bytes) -/
+theorem C14_header (sha256 : Bytes → Bytes) (f : Filter) (prev : Bytes) :
+    GetFilterHash (fun b => sha256 (sha256 b)) f = sha256 (sha256 (writeVarInt f.n ++ f.data)) ∧
+    MakeHeaderForFilter (fun b => sha256 (sha256 b)) f prev
+      = sha256 (sha256 (sha256 (sha256 (writeVarInt f.n ++ f.data))
+          ++ (prev ++ List.replicate 32 0).take 32)) ∧
+    (prev.length = 32 →
+      MakeHeaderForFilter (fun b => sha256 (sha256 b)) f prev
+        = sha256 (sha256 (GetFilterHash (fun b => sha256 (sha256 b)) f ++ prev))) := by
+  refine ⟨rfl, rfl, fun h => ?_⟩
+  unfold MakeHeaderForFilter
+  rw [List.take_left' h]
+
+/-! ## non-vacuity: a toy hash on three items, a toy block -/
+
+def toySip (d : Bytes) : UInt64 := UInt64.ofNat (Bytes.toNatBE d) * 0x9E3779B97F4A7C15
+def toyData : List Bytes := [[1, 2, 3], [0xff], [7, 7]]
+
+-- the right-hand side of `C14_bit_exact` evaluated piecewise for P = 3, M = 5
+example : toyData.map (Spec.hashed toySip 3 5) = [11, 8, 12] := by decide
+example : Spec.sort [11, 8, 12] = [8, 11, 12] :=
+  List.Perm.eq_of_pairwise (le := (· ≤ ·)) (fun _ _ _ _ h1 h2 => Nat.le_antisymm h1 h2)
+    (spec_sort_sorted_perm _).1 (by decide) ((spec_sort_sorted_perm _).2.trans (by decide))
+example : Spec.golombRice 3 [8, 11, 12]
+    = [true, false, false, false,  false, false, false, true,  true, false, false, false, true] := by
+  decide
+example : packBits
+    [true, false, false, false,  false, false, false, true,  true, false, false, false, true]
+    = [129, 136] := by simp [packBits, byteOfBits]
+example : NBytes ⟨3, 3, 15, [129, 136]⟩ = [3, 129, 136]
+    ∧ PBytes ⟨3, 3, 15, [129, 136]⟩ = [3, 129, 136]
+    ∧ NPBytes ⟨3, 3, 15, [129, 136]⟩ = [3, 3, 129, 136] := by decide
+example : FromNBytes 3 5 [3, 129, 136] = .ok ⟨3, 3, 15, [129, 136]⟩ := by
+  simp [FromNBytes, readVarInt, FromBytes]
+
+-- the hypothesis of `C14_serialise` / `C14_roundtrip_queries` is satisfiable
+example : ∃ f, BuildGCSFilter toySip 19 784931 toyData = .ok f ∧ f.n = 3 ∧
+    FromNBytes 19 784931 (NBytes f) = .ok f := by
+  have h := C14_bit_exact toySip 19 784931 toyData (by decide) (by decide)
+  exact ⟨_, h, rfl, (C14_serialise _ _ _ _ _ h).1⟩
+
+-- a block whose coinbase input is skipped, with a duplicated outpoint, a duplicated script and an
+-- empty script: the entry set has three elements
+def toyBlock : List GcsBuilder.Tx :=
+  [⟨[([0xaa], 0)], [[0x51], []]⟩, ⟨[([0xbb], 1), ([0xbb], 1)], [[0x51], [0x52]]⟩]
+
+example : ((GcsBuilder.basicEntries toyBlock).foldl (fun b d => step b (.addEntry d))
+    (withKeyPM [] 19 784931)).data = [[0x51], [0xbb, 1, 0, 0, 0], [0x52]] := by decide
+
 end Bch.Props.C14
